@@ -38,6 +38,7 @@ type Scenario struct {
 	Faults    int   `json:"faults"`    // block requests answered with status 500 (seeded choice), failed heads are announced again
 	XCancel   bool  `json:"xcancel"`   // explicit syncs run under a context that is cancelled at a random point
 	Scoped    bool  `json:"scoped"`    // explicit syncs bring their own (scoped) block hook
+	Readers   bool  `json:"readers"`   // listeners are read by fast and slow readers during the run (otherwise: stalled, read at the end)
 	Seed      int64 `json:"seed"`
 }
 
@@ -51,6 +52,24 @@ type listener struct {
 	cancel     context.CancelFunc
 	ready      bool
 	cancelling bool
+	// reader kind: 0 = stalled (read only at the end of the run), 1 = fast, 2 = slow (both read in a goroutine of
+	// their own while the run goes on)
+	mode   int
+	mu     sync.Mutex
+	got    []dagsync.SyncFinished
+	closed chan struct{}
+}
+
+func (l *listener) read() {
+	defer close(l.closed)
+	for ev := range l.out {
+		l.mu.Lock()
+		l.got = append(l.got, ev)
+		l.mu.Unlock()
+		if l.mode == 2 {
+			time.Sleep(300 * time.Microsecond)
+		}
+	}
 }
 
 type run struct {
@@ -291,12 +310,18 @@ func Execute(sc Scenario, pubs []*chain.Pub) (log []gate.Event, key, detail stri
 				})
 			case "reg":
 				regLeft--
-				l := &listener{}
+				l := &listener{closed: make(chan struct{})}
 				r.lst = append(r.lst, l)
 				n := len(r.lst)
+				if sc.Readers {
+					l.mode = (n + int(sc.Seed)) % 3
+				}
 				s.Record(gate.Event{Ev: "env.reg", N: n})
 				s.Go("register", func() {
 					l.out, l.cancel = r.sub.OnSyncFinished()
+					if l.mode != 0 {
+						go l.read()
+					}
 					l.ready = true
 					s.RecordG(gate.Event{Ev: "env.reg.ret", N: n})
 				})
@@ -369,21 +394,36 @@ func Execute(sc Scenario, pubs []*chain.Pub) (log []gate.Event, key, detail stri
 			}
 			var q []int
 			closedCh := false
+			add := func(ev dagsync.SyncFinished) {
+				p := r.pnum(ev.PeerID)
+				e := 0
+				if ev.Err != nil {
+					e = 1
+				}
+				q = append(q, p, r.cnum(p, ev.Cid), ev.Count, e)
+			}
 			to := time.After(3 * time.Second)
+			if l.mode != 0 { // read during the run by its own goroutine: wait for the channel to be closed
+				select {
+				case <-l.closed:
+					closedCh = true
+				case <-to:
+				}
+				l.mu.Lock()
+				for _, ev := range l.got {
+					add(ev)
+				}
+				l.mu.Unlock()
+			}
 		drain:
-			for {
+			for l.mode == 0 {
 				select {
 				case ev, ok := <-l.out:
 					if !ok {
 						closedCh = true
 						break drain
 					}
-					p := r.pnum(ev.PeerID)
-					e := 0
-					if ev.Err != nil {
-						e = 1
-					}
-					q = append(q, p, r.cnum(p, ev.Cid), ev.Count, e)
+					add(ev)
 				case <-to:
 					break drain
 				}
@@ -534,9 +574,11 @@ func Run(args []string) *rep.Report {
 		case "stall":
 			sc.Pubs, sc.Ads, sc.Listeners = 1, len(long.Chain.Cids)-1, 1
 		case "listeners":
-			sc.Listeners, sc.Cancels = 2, i%2
+			sc.Listeners, sc.Cancels = 2+(i/2)%2, i%2
+			sc.Readers = i%4 >= 2 // half of the runs: stalled readers only; the others mix fast, slow and stalled readers
 		case "close":
-			sc.Listeners, sc.Closers = 1, 1+i%2
+			sc.Listeners, sc.Closers = 1, 1+i%3
+			sc.Readers = i%2 == 1
 			sc.Explicit, sc.Separate = 1+(i/2)%2, true
 			sc.Pubs = 2 + i%2
 		}
